@@ -13,6 +13,7 @@ Python equivalents of various excel functions
 import math
 import sys
 from decimal import Decimal, ROUND_DOWN, ROUND_HALF_UP, ROUND_UP
+from fractions import Fraction
 
 import numpy as np
 
@@ -73,6 +74,24 @@ def atan2_(x_num, y_num):
     return math.atan2(y_num, x_num)
 
 
+def _decimal_ratio(number, significance):
+    """number / significance of the numbers as they are written
+
+    0.3 / 0.1 is 3, the quotient of the binary values is 2.9999999999999996
+    """
+    number, significance = (
+        Fraction(x) if isinstance(x, int) else Fraction(repr(float(x)))
+        for x in (number, significance))
+    return number / significance
+
+
+def _decimal_multiple(significance, count):
+    """significance * count (an int) of the number as it is written"""
+    if isinstance(significance, int):
+        return significance * count
+    return float(Fraction(repr(float(significance))) * count)
+
+
 @excel_math_func
 def ceiling(number, significance):
     # Excel reference: https://support.microsoft.com/en-us/office/
@@ -83,10 +102,11 @@ def ceiling(number, significance):
     if number == 0 or significance == 0:
         return 0
 
+    ratio = _decimal_ratio(number, significance)
     if number < 0 < significance:
-        return significance * int(number / significance)
+        return _decimal_multiple(significance, int(ratio))
     else:
-        return significance * math.ceil(number / significance)
+        return _decimal_multiple(significance, math.ceil(ratio))
 
 
 @excel_math_func
@@ -99,7 +119,8 @@ def ceiling_math(number, significance=1, mode=0):
     significance = abs(significance)
     if mode and number < 0:
         significance = -significance
-    return significance * math.ceil(number / significance)
+    return _decimal_multiple(
+        significance, math.ceil(_decimal_ratio(number, significance)))
 
 
 @excel_math_func
@@ -110,7 +131,8 @@ def ceiling_precise(number, significance=1):
         return 0
 
     significance = abs(significance)
-    return significance * math.ceil(number / significance)
+    return _decimal_multiple(
+        significance, math.ceil(_decimal_ratio(number, significance)))
 
 
 def conditional_format_ids(*args):
@@ -169,7 +191,8 @@ def floor(number, significance):
     if significance == 0:
         return DIV0
 
-    return significance * math.floor(number / significance)
+    return _decimal_multiple(
+        significance, math.floor(_decimal_ratio(number, significance)))
 
 
 @excel_math_func
@@ -182,7 +205,8 @@ def floor_math(number, significance=1, mode=0):
     significance = abs(significance)
     if mode and number < 0:
         significance = -significance
-    return significance * math.floor(number / significance)
+    return _decimal_multiple(
+        significance, math.floor(_decimal_ratio(number, significance)))
 
 
 @excel_math_func
@@ -193,7 +217,8 @@ def floor_precise(number, significance=1):
         return 0
 
     significance = abs(significance)
-    return significance * math.floor(number / significance)
+    return _decimal_multiple(
+        significance, math.floor(_decimal_ratio(number, significance)))
 
 
 @excel_math_func
